@@ -693,12 +693,24 @@ func accumulated(t *Terminal, atoms map[string]bool, v Val, src, elem string) (o
 		return false, false, "no value"
 	}
 	ls := loopShapeOf(atoms, src)
+	// a slice made with len(src) before the loop and filled by index, once per iteration (summarised by the engine)
+	if a, isA := v.(*AllocV); isA && a.Comment == "makeslice" {
+		if c, has := t.St.heap["slicecomp:"+a.Key()]; has {
+			v = c.val
+		}
+	}
 	emptyNonNil := func(x Val) (empty, nn bool) {
 		if isNilConst(x) {
 			return true, false
 		}
 		if isEmptySliceValT(t, x) {
 			return true, true
+		}
+		// make([]T, len(src)) on a path where src is known to be empty
+		if a, isA := x.(*AllocV); isA && a.Comment == "makeslice" && ls.Zero {
+			if c, has := t.St.heap["len:"+a.Key()]; has && ap(c.val) == "len("+src+")" {
+				return true, true
+			}
 		}
 		return false, false
 	}
